@@ -181,7 +181,13 @@ pub fn op_fragdec(args: &[&str]) -> String {
 /// (decode_ranges on a borrowed reader, the response possibly followed by more bytes), fragmented transport;
 /// `rest` = what the caller's reader still holds afterwards
 pub fn op_fragdecr(args: &[&str]) -> String {
-    let cuts = parse_cuts(args[0]);
+    // the run under the given slicing, and the same run on a reader that hands out everything at once and never
+    // suspends: C11 says they are indistinguishable
+    let a = fragdecr_one(parse_cuts(args[0]), args);
+    let b = fragdecr_one(parse_cuts("c-"), args);
+    format!("{a} || {b}")
+}
+fn fragdecr_one(cuts: Cuts, args: &[&str]) -> String {
     let fl = args[1];
     let kind = args[2];
     let data = blob(args[3]);
